@@ -83,12 +83,15 @@ def cli_post(c):
     code = r.const() if hasattr(r, "const") else None
     errs = [p for p in g.get("prints", ()) if _is_stderr(p[1])]
     outs = [p for p in g.get("prints", ()) if not _is_stderr(p[1])]
-    c.note = (f"exit={code} stdout_dirty={bool(g.get('stdout_dirty'))} stdout_writes={g.get('stdout_writes', 0)} "
+    c.note = (f"exit={code} log_silenced={bool(g.get('log_silenced'))} stdout_dirty={bool(g.get('stdout_dirty'))} stdout_writes={g.get('stdout_writes', 0)} "
               f"stderr_lines={len(errs)} prints_to_stdout={len(outs)}")
     if code == 0:
         return z3.BoolVal(g.get("stdout_writes", 0) >= 1 and not errs and not outs)
     if code == 1:
-        return z3.BoolVal(not g.get("stdout_dirty") and len(errs) == 1 and not outs)
+        # exactly one stderr line: our own print, and no log record may reach logging's last-resort stderr handler
+        n = g.get("root_handlers_n")
+        silenced = z3.Or(z3.BoolVal(bool(g.get("log_silenced"))), n > 0) if n is not None else z3.BoolVal(bool(g.get("log_silenced")))
+        return z3.And(z3.BoolVal(not g.get("stdout_dirty") and len(errs) == 1 and not outs), silenced)
     return z3.BoolVal(False)
 
 
@@ -139,6 +142,34 @@ def install_cli(reg):
         ex.exc_any(st.fork(), f"{ex.loc(node)} json.dumps")
         return [(st, VStr(_z3.String(fresh_name("json_text"))))]
 
+    # logging: records of unconfigured loggers go to the last-resort handler (stderr) unless the root logger has a handler
+    def m_get_logger(ex, st, args, kwargs, node):
+        return [(st, VExt("Logger"))]
+
+    def a_handlers(ex, st, obj):
+        import z3 as _z3
+        from pyvc.values import VSeq
+        n = _z3.Int(fresh_name("n_root_handlers"))
+        st.assume(n >= 0)
+        st.ghost["root_handlers_n"] = n
+        return VSeq(n, lambda i: VUnk("handler"), "handler")
+
+    def m_add_handler(ex, st, obj, args, kwargs, node):
+        st.ghost["log_silenced"] = True
+        return [(st, NONE)]
+
+    class _H:
+        pass
+
+    def a_handlers_fork(ex, st, obj):
+        # value of `.handlers`: unknown list; when it is non-empty logging is configured by the embedding application
+        return VUnk("handlers")
+
+    reg.ext_models["logging.getLogger"] = m_get_logger
+    reg.ext_models[("new", "logging.NullHandler")] = lambda ex, st, args, kwargs, node: [(st, VExt("Handler"))]
+    reg.ext_models["logging.basicConfig"] = lambda ex, st, args, kwargs, node: (st.ghost.__setitem__("log_silenced", True), [(st, NONE)])[1]
+    reg.attr_models[("Logger", "handlers")] = a_handlers
+    reg.method_models[("Logger", "addHandler")] = m_add_handler
     reg.ext_models["json.dumps"] = m_json_dumps
     reg.ext_models["json.dump"] = m_json_dump
     reg.method_models[("ArgParser", "parse_known_args")] = m_parse
